@@ -552,6 +552,69 @@ func extractCodec(repo string, o *Out) {
 	o.nat("ldReadLo", lo, "ReadLenData refuses length < this before make (0: no guard)")
 	o.nat("ldReadSub", sub, "ReadLenData: make([]byte, length - this)")
 
+	// WriteLenData
+	wl := p.Func("", "WriteLenData")
+	var wAdd, wHi, wHdr, wRet uint64
+	if wl == nil {
+		o.problem("WriteLenData not found")
+	} else {
+		okAdd, okRet := false, false
+		var lo uint64
+		var hasLo, hasHi bool
+		for _, st := range wl.Body.List {
+			switch v := st.(type) {
+			case *ast.DeclStmt:
+				ast.Inspect(v, func(n ast.Node) bool {
+					vs, ok := n.(*ast.ValueSpec)
+					if !ok || len(vs.Names) != 1 {
+						return true
+					}
+					if vs.Names[0].Name == "length" && len(vs.Values) == 1 {
+						if be, ok := vs.Values[0].(*ast.BinaryExpr); ok && be.Op == token.ADD && p.Src(be.X) == "len(data)" {
+							wAdd, okAdd = x.constU(be.Y)
+						}
+					}
+					if vs.Names[0].Name == "tmp" {
+						if at, ok := vs.Type.(*ast.ArrayType); ok {
+							wHdr, _ = x.constU(at.Len)
+						}
+					}
+					return true
+				})
+			case *ast.IfStmt:
+				if v.Init == nil && v.Else == nil && endsInErrorReturn(v.Body) {
+					x.cmpBounds(v.Cond, "length", &lo, &wHi, &hasLo, &hasHi)
+				}
+			case *ast.ReturnStmt:
+				if len(v.Results) == 2 && p.Src(v.Results[1]) == "nil" {
+					if be, ok := v.Results[0].(*ast.BinaryExpr); ok && be.Op == token.ADD && p.Src(be.X) == "n" {
+						wRet, okRet = x.constU(be.Y)
+					} else if p.Src(v.Results[0]) == "n" {
+						wRet, okRet = 0, true
+					}
+				}
+			}
+		}
+		if !okAdd || !okRet || !hasHi || hasLo || wHdr == 0 {
+			o.problem("WriteLenData: length computation, limit, prefix buffer or return value not understood")
+		}
+		var writes []string
+		for _, c := range p.Calls(wl, "w.Write") {
+			if len(c.Args) == 1 {
+				writes = append(writes, p.Src(c.Args[0]))
+			}
+		}
+		puts := p.Calls(wl, "binary.BigEndian.PutUint16")
+		if strings.Join(writes, ",") != "tmp[:],data" || len(puts) != 1 || len(puts[0].Args) != 2 ||
+			p.Src(puts[0].Args[0]) != "tmp[:]" || p.Src(x.strip(puts[0].Args[1])) != "length" || wHdr != 2 {
+			o.problem("WriteLenData: the two writes (16-bit big-endian length, then the data) are not the ones the model assumes")
+		}
+	}
+	o.nat("ldWriteAdd", wAdd, "WriteLenData: length = len(data) + this")
+	o.nat("ldWriteHi", wHi, "WriteLenData refuses length > this before the first Write")
+	o.nat("ldWriteHeader", wHdr, "WriteLenData: size of the length prefix buffer")
+	o.nat("ldRetAdd", wRet, "WriteLenData returns n + this, n the size of the data (the code's behaviour, whatever was written)")
+
 	// flag bits (package fatchoy)
 	if root, err := load(repo, "."); err != nil {
 		o.problem("load root package: %v", err)
